@@ -176,6 +176,22 @@ package main
 //@ requires wfc(c)
 //@ ensures [C17] result == ite(has(c.config.CustomTypes, c.path), c.config.CustomTypes[c.path], gogoproto.GetCustomType(c.field.FieldDescriptorProto))
 
+// membership in a oneof is "OneofIndex is set" (index 0 is the first oneof, not "none"); the holder's Go
+// names follow gogo's: upper-camel oneof name, <Message>_<Field> wrapper type
+//@ func FieldBuildContext.GetOneOfFieldName
+//@ pure
+//@ requires wfc(c) && wfd(c) && c.desc != nil && c.desc.DescriptorProto != nil
+//@ define on = c.desc.OneofDecl[*c.field.OneofIndex].GetName()
+//@ ensures [C07,C01] imp(c.field.OneofIndex == nil, result == "")
+//@ ensures [C07,C01] imp(c.field.OneofIndex != nil, result == ite(on[0:1] == strings.ToLower(on[0:1]), strcase.UpperCamelCase(on), on))
+
+//@ func FieldBuildContext.GetOneOfTypeName
+//@ pure
+//@ requires wfc(c) && c.field.GetName() != "" && c.desc != nil
+//@ define wn = c.desc.GetName() + "_" + c.GetName()
+//@ ensures [C07,C01,C13] imp(c.field.OneofIndex == nil, result == "")
+//@ ensures [C07,C01,C13] imp(c.field.OneofIndex != nil, result == ite(c.config.DefaultPackageName == "", wn, c.config.DefaultPackageName + "." + wn))
+
 //@ func FieldBuildContext.GetName
 //@ pure
 //@ requires wfc(c) && c.field.GetName() != ""
@@ -553,6 +569,7 @@ package main
 //@ ensures [C01,C13] imp(one, r0.GoElemTypeIndirect == replaceall(r0.GoElemType, "*", "") && imp(!r0.IsMap, r0.GoType == c.goType))
 //@ ensures [C01,C13] imp(one && !r0.IsMap && !r0.IsRepeated, r0.GoElemType == c.goType)
 //@ ensures [C07] imp(one && c.field.OneofIndex == nil, r0.OneOfName == "" && r0.OneOfType == "")
+//@ ensures [C07,C01] imp(one, r0.OneOfName == c.GetOneOfFieldName() && r0.OneOfType == c.GetOneOfTypeName())
 //@ # the Terraform type row reaches the Field unchanged unless a schema-type override is configured (maps: the element part comes from the value field)
 //@ define hasO = has(c.config.SchemaTypes, c.path) || has(c.config.SchemaTypes, c.typeName)
 //@ ensures [C02,C19,C11] imp(one && !r0.IsMap && !hasO, same(r0.TerraformType, first(c.GetTerraformType())))
@@ -1457,10 +1474,10 @@ package main
 //@ ensures [C10] at.Description == "$Comment"
 //@ ensures [C10] len(at.Validators) == $NValidators && len(at.PlanModifiers) == $NPlanModifiers
 
-//@ emits Schema when NValidators == "02"
+//@ emits Schema when NValidators == "02" && Kind != "Custom"
 //@ ensures [C10] at.Validators[0] == UseMockValidator() && at.Validators[1] == UseOtherValidator()
 
-//@ emits Schema when NPlanModifiers == "02"
+//@ emits Schema when NPlanModifiers == "02" && Kind != "Custom"
 //@ ensures [C10] at.PlanModifiers[0] == tfsdk.UseStateForUnknown() && at.PlanModifiers[1] == UseMockPlanModifier()
 
 // kind decides between Type and nested attributes
@@ -1486,8 +1503,19 @@ package main
 //@ ensures [C10] has(nestedOf(at.Attributes), "active") && act.Computed && act.Optional && !act.Required && act.Type == box(types.BoolType)
 
 // custom types: the entry is what the user's hook returns for the attribute the field would otherwise get
+// custom types: the user's hook receives the attribute with the description and every flag, validator and
+// plan modifier the field would otherwise get (C17)
 //@ emits Schema when Kind == "Custom"
-//@ ensures [C17,C10] at == GenSchemaHOOK(ctx, tfsdk.Attribute{Description: "$Comment", Optional: !$IsRequired, Required: $IsRequired, Computed: $IsComputed, Sensitive: $IsSensitive})
+//@ define ha = hookArg(at)
+//@ ensures [C17,C10] at == GenSchemaHOOK(ctx, ha)
+//@ ensures [C17,C10] ha.Required == $IsRequired && ha.Optional == !$IsRequired && ha.Computed == $IsComputed && ha.Sensitive == $IsSensitive && ha.Description == "$Comment"
+//@ ensures [C17,C10] len(ha.Validators) == $NValidators && len(ha.PlanModifiers) == $NPlanModifiers
+
+//@ emits Schema when Kind == "Custom" && NValidators == "02"
+//@ ensures [C17,C10] ha.Validators[0] == UseMockValidator() && ha.Validators[1] == UseOtherValidator()
+
+//@ emits Schema when Kind == "Custom" && NPlanModifiers == "02"
+//@ ensures [C17,C10] ha.PlanModifiers[0] == tfsdk.UseStateForUnknown() && ha.PlanModifiers[1] == UseMockPlanModifier()
 
 
 //@ emits CopyTo when (Kind == "ObjectList" || Kind == "ObjectMap") && Nested == "marker"
